@@ -12,6 +12,7 @@ import (
 	"runtime"
 	"sort"
 	"strings"
+	"sync/atomic"
 
 	m2 "github.com/goark/go-cvss/v2/metric"
 	m3 "github.com/goark/go-cvss/v3/metric"
@@ -1033,3 +1034,94 @@ func colonShift(rng *rand.Rand, s string) string {
 }
 
 func init() { register("orders", cmdOrders) }
+
+// ---------------------------------------------------------------------------
+// repeat (C15): every v2 base/temporal vector, every v3 base vector with seeded optional metrics, and seeded v2
+// environmental vectors: each query asked several times of one object and of a second, freshly decoded one.
+// "Repeating any of these operations ... returns identical results" -- also where the exact value is a rounding tie.
+// ---------------------------------------------------------------------------
+func cmdRepeat(args []string) {
+	fs := flag.NewFlagSet("repeat", flag.ExitOnError)
+	commonFlags(fs)
+	reps := fs.Int("reps", 6, "repetitions of every query")
+	fs.Parse(args)
+	type rev struct {
+		K       string   `json:"k"`
+		Fam     string   `json:"fam"`
+		Same    bool     `json:"same"`
+		Vectors int      `json:"vectors"`
+		S       string   `json:"s"`
+		Vals    []string `json:"vals"`
+	}
+	workers := runtime.NumCPU()
+	recs := make([]*Recorder, workers)
+	for i := range recs {
+		recs[i] = NewRecorder()
+	}
+	var total int64
+	probe := func(rec *Recorder, fam string, lvl byte, s string) {
+		atomic.AddInt64(&total, 1)
+		seen := map[string]bool{}
+		var vals []string
+		for round := 0; round < 2; round++ {
+			h, err := newHandle(fam, lvl, true).decode(s)
+			if err != nil {
+				return
+			}
+			for k := 0; k < *reps; k++ {
+				sc, sv, en := h.query("Score"), h.query("Severity"), h.query("Encode")
+				v := fmt.Sprintf("score=%d severity=%s encoding=%s", sc.Sc, sv.Sev, en.Str)
+				for _, via := range []byte{'B', 'T'} {
+					if vh := h.view(via); vh != nil && via != lvl && !(via == 'T' && lvl == 'B') {
+						r := vh.query("Score")
+						v += fmt.Sprintf(" %c.score=%d", via, r.Sc)
+					}
+				}
+				if !seen[v] {
+					seen[v] = true
+					vals = append(vals, v)
+				}
+			}
+		}
+		if len(vals) > 1 {
+			rec.Add(evBody(rev{K: "repeat", Fam: fam, Same: false, S: asciiSafe(s), Vals: vals}), "repeated queries on "+s)
+		}
+	}
+	nb2, nt2 := v2Count(0, 6), v2Count(6, 9)
+	parallelFor(nb2, workers, func(w, bi int) {
+		rng := newRand(6100 + bi)
+		var v v2Vec
+		v2SetFromIndex(&v, 0, 6, bi)
+		for ti := 0; ti < nt2; ti++ {
+			v2SetFromIndex(&v, 6, 9, ti)
+			probe(recs[w], "v2", 'T', v2String(&v, true, false))
+			if ti%5 == bi%5 {
+				for i := 9; i < v2N; i++ {
+					v[i] = uint8(rng.Intn(len(v2Defs[i].Codes)))
+				}
+				probe(recs[w], "v2", 'E', v2String(&v, true, true))
+			}
+		}
+	})
+	nb3 := v3BaseCount()
+	parallelFor(nb3*2, workers, func(w, i int) {
+		rng := newRand(6200 + i)
+		var v v3Vec
+		v3SetFromIndex(&v, 0, v3NBase, i/2)
+		ver := v3Versions[i%2].Label
+		for k := 0; k < 3; k++ {
+			randHigher(rng, &v, 8, 22)
+			probe(recs[w], "v3", 'E', v3Join(ver, v3Tokens(&v, 22, xMask(&v, 8, 22))))
+		}
+	})
+	all := NewRecorder()
+	for _, r := range recs {
+		all.Merge(r)
+	}
+	all.Add(evBody(rev{K: "repeat", Fam: "all", Same: true, Vectors: int(total), Vals: []string{}}), "vectors whose repeated queries all agreed")
+	s := all.Flush(flagOut, "repeat", 1)
+	s.Extra = map[string]any{"vectors_probed": total, "repetitions": *reps * 2}
+	printSummary(s)
+}
+
+func init() { register("repeat", cmdRepeat) }
